@@ -74,13 +74,20 @@ func main() {
 	} else {
 		defer os.RemoveAll(wd)
 	}
+	// os.Exit skips deferred calls: every exit below goes through exit(), which removes the query directory first
+	exit := func(code int) {
+		if os.Getenv("GOVC_KEEP") == "" {
+			os.RemoveAll(wd)
+		}
+		os.Exit(code)
+	}
 
 	switch cmd {
 	case "func":
 		vc, err := loadVC(allPatterns)
 		if err != nil {
 			fmt.Println("LOAD ERROR:", err)
-			os.Exit(2)
+			exit(2)
 		}
 		for _, e := range vc.contractErrors {
 			fmt.Println("CONTRACT ERROR:", e)
@@ -107,7 +114,7 @@ func main() {
 			fi := vc.byShort[name]
 			if fi == nil {
 				fmt.Println("no such function", name)
-				os.Exit(2)
+				exit(2)
 			}
 			r := vc.verifyFunc(fi)
 			if r.Unsupported != "" {
@@ -133,10 +140,10 @@ func main() {
 		solveAll(obls, to)
 		printObls(obls, true, *dump)
 	case "check":
-		os.Exit(runCheck(*prop, *tier, *cfgPath, *evDir, *knownPath, *replayDir, *verbose, *timeoutS, *dump))
+		exit(runCheck(*prop, *tier, *cfgPath, *evDir, *knownPath, *replayDir, *verbose, *timeoutS, *dump))
 	default:
 		fmt.Fprintln(os.Stderr, "unknown command", cmd)
-		os.Exit(2)
+		exit(2)
 	}
 }
 
